@@ -1261,6 +1261,14 @@ def itoa(ex, g, x, bits, signed, base, pos, maxdigits=None):
             s = bytes([digs[n % base]]) + s
             n //= base
         return s_const((b'-' if neg else b'') + s)
+    # a counter with a small set of possible values: format each value, select by equality (no division in the formula)
+    vs = vals_of(x, 24)
+    if vs is not None:
+        alts = [(i_cmp('==', x, v, bits, signed), itoa(ex, g, v, bits, signed, base, pos)) for v in vs]
+        out = alts[-1][1]
+        for c, sv in reversed(alts[:-1]):
+            out = s_ite(c, sv, out)
+        return out
     ub = get_ub(x)
     md = maxdigits or ex.ctx.hooks.get('max_digits', 3)
     lim = base ** md
